@@ -162,7 +162,7 @@ def run_property(pid: str, tier: str = "quick", replay: Optional[str] = None) ->
 
     os.makedirs(EVIDENCE_DIR, exist_ok=True)
     replay_paths = []
-    if unlisted:
+    if unlisted and not os.environ.get("VERIF_NO_EVIDENCE"):
         os.makedirs(REPLAY_DIR, exist_ok=True)
         for k, o in enumerate(unlisted):
             p = os.path.join(REPLAY_DIR, f"{pid}-{k}.json")
@@ -172,7 +172,7 @@ def run_property(pid: str, tier: str = "quick", replay: Optional[str] = None) ->
             replay_paths.append(p)
 
     wall = time.time() - t0
-    if not replay:
+    if not replay and not os.environ.get("VERIF_NO_EVIDENCE"):
         nontrivial = {o.key for o in ctx.obs if o.where or o.construct}
         samples = [o.as_dict() for o in (unlisted + incon)[:6]]
         # a rotating slice of discharged obligations as samples
@@ -221,6 +221,8 @@ def run_property(pid: str, tier: str = "quick", replay: Optional[str] = None) ->
         for o in ctx.obs:
             if only is None or o.key == only:
                 print(json.dumps(o.as_dict(), indent=1))
+    if len(replay_paths) < len(unlisted):
+        replay_paths = replay_paths + ['<none>'] * (len(unlisted) - len(replay_paths))
     for o, p in zip(unlisted, replay_paths):
         print(f"  violated {o.oid} [{o.rule}] {o.where}: {o.desc}\n    construct: {o.construct}\n    witness: {o.witness}")
         print(f"VIOLATION property={pid} replay={p}")
